@@ -357,31 +357,34 @@ def cellFaces {α : Type} (g : Grid α) (cells : List Int) : List Face :=
 theorem addTet_spec {α : Type} {φ : Int → Int → Int → G} (hφ : Alt φ) (g : Grid α) (cell : Int)
     (c c' : Cav) (hinv : SlotsInv c.faces) (h : addTet g c cell = (.ok, c')) (hs : c'.state = .unknown) :
     ∃ new, c'.tetList = c.tetList ++ new ∧ Step φ c c' ((new.map (tetBd φ g)).sum) ∧
-      (∀ x ∈ c'.validFaces, x ∈ c.validFaces ∨ x ∈ cellFaces g new) := by
+      (∀ x ∈ c'.validFaces, x ∈ c.validFaces ∨ x ∈ cellFaces g new) ∧
+      (∀ cell ∈ new, ∃ t, g.tets.get? cell = some t) := by
   unfold addTet at h
   split at h
   · simp at h
   · next tet hget =>
     split at h
     · simp only [Prod.mk.injEq, true_and] at h; subst h
-      exact ⟨[], by simp, ⟨hinv, by simp, rfl, rfl⟩, fun x hx => Or.inl hx⟩
+      exact ⟨[], by simp, ⟨hinv, by simp, rfl, rfl⟩, fun x hx => Or.inl hx, by simp⟩
     · obtain ⟨st, htl, hmem⟩ :=
         addTetFaces_spec hφ g (tetFaces tet) { c with tetList := c.tetList ++ [cell] } c' hinv h hs
-      refine ⟨[cell], htl, ⟨st.inv, ?_, st.segs, st.node⟩, ?_⟩
+      refine ⟨[cell], htl, ⟨st.inv, ?_, st.segs, st.node⟩, ?_, ?_⟩
       · rw [st.sum]; simp [tetBd, hget]
       · intro x hx
         rcases hmem x hx with h1 | h1
         · exact Or.inl h1
         · right; simp [cellFaces, hget, h1]
+      · intro x hx; simp only [List.mem_singleton] at hx; subst hx; exact ⟨tet, hget⟩
 
 theorem addTets_spec {α : Type} {φ : Int → Int → Int → G} (hφ : Alt φ) (g : Grid α) (cells : List Int)
     (c c' : Cav) (hinv : SlotsInv c.faces) (h : addTets g c cells = (.ok, c')) (hs : c'.state = .unknown) :
     ∃ new, c'.tetList = c.tetList ++ new ∧ Step φ c c' ((new.map (tetBd φ g)).sum) ∧
-      (∀ x ∈ c'.validFaces, x ∈ c.validFaces ∨ x ∈ cellFaces g new) := by
+      (∀ x ∈ c'.validFaces, x ∈ c.validFaces ∨ x ∈ cellFaces g new) ∧
+      (∀ cell ∈ new, ∃ t, g.tets.get? cell = some t) := by
   induction cells generalizing c with
   | nil =>
     simp only [addTets, Prod.mk.injEq, true_and] at h; subst h
-    exact ⟨[], by simp, ⟨hinv, by simp, rfl, rfl⟩, fun x hx => Or.inl hx⟩
+    exact ⟨[], by simp, ⟨hinv, by simp, rfl, rfl⟩, fun x hx => Or.inl hx, by simp⟩
   | cons t rest ih =>
     unfold addTets at h
     rcases h1 : addTet g c t with ⟨s1, c1⟩
@@ -389,10 +392,15 @@ theorem addTets_spec {α : Type} {φ : Int → Int → Int → G} (hφ : Alt φ)
     cases s1 <;> simp only [] at h
     case ok =>
       have hs1 : c1.state = .unknown := addTets_state g rest c1 c' _ h hs
-      obtain ⟨n1, htl1, st1, hm1⟩ := addTet_spec hφ g t c c1 hinv h1 hs1
-      obtain ⟨n2, htl2, st2, hm2⟩ := ih c1 st1.inv h
+      obtain ⟨n1, htl1, st1, hm1, hv1⟩ := addTet_spec hφ g t c c1 hinv h1 hs1
+      obtain ⟨n2, htl2, st2, hm2, hv2⟩ := ih c1 st1.inv h
       refine ⟨n1 ++ n2, by rw [htl2, htl1, List.append_assoc], ⟨st2.inv, ?_, st2.segs.trans st1.segs,
-        st2.node.trans st1.node⟩, ?_⟩
+        st2.node.trans st1.node⟩, ?_, ?_⟩
+      rotate_left 2
+      · intro x hx
+        rcases List.mem_append.mp hx with h | h
+        · exact hv1 x h
+        · exact hv2 x h
       · rw [st2.sum, st1.sum]; simp only [List.map_append, List.sum_append]; abel
       · intro x hx
         rcases hm2 x hx with h2 | h2
